@@ -42,10 +42,6 @@ var moExempt = map[string]struct{ reason, shape string }{
 		"the seven predicates are mutually exclusive on one token (quoted string / integer / float / true,false / { / [ / null), so at most one iteration returns", "exits=return;writes="},
 	"maporder|notations/jschema/internal/loader.CompileAllOf|range c.foundTypes": {
 		"inserts each found type under its own (unique) name into the root's type table: insertions under distinct keys commute; AddType fails only on a name that is already present, which does not depend on the order of the others", "exits=;writes=call AddType"},
-	"maporder|notations/jschema/internal/loader.AddUnnamedTypes|range rootSchema.TypesList()": {
-		"hoists anonymous types under their own unique names: insertions under distinct keys commute (Go permits insertion during range; newly inserted entries are anonymous types without further nested ones)", "exits=;writes=call AddType"},
-	"maporder|notations/jschema/internal/loader.AddUnnamedTypes|range typ.Schema().TypesList()": {
-		"same: insertion keyed by the (unique) anonymous type name", "exits=;writes=call AddType"},
 	"maporder|notations/jschema/internal/validator.(*Tree).setLeavesIndexes|range t.leaves": {
 		"the index slice only fixes the order in which live leaves are fed one lexeme; leaves are independent, and what escapes FeedLeaves is the failure count and, when there is exactly one leaf, its error", "exits=;writes=t.leavesIndexes"},
 	"maporder|notations/jschema/internal/validator.(objectValidator).requiredKeysString|range v.requiredKeys": {
